@@ -5,7 +5,7 @@ from .. import machine as M
 from ..core import hx, unhx
 
 DRIVERS = ["drv_machine"]
-GENERATED = ["Handlers", "Markers", "IngestMachine", "Ingest"]
+GENERATED = ["Handlers", "Markers", "IngestMachine", "Ingest", "HeaderState"]
 
 
 def expected_rows(cfg, f):
@@ -457,8 +457,141 @@ def run_raw(ctx, rep):
         check_raw(ctx, rep, uni, metas[i:i + 60])
 
 
+# ------------------------------------------------------------------ session 4 (strengthening): combined-diff file sections
+#
+# A combined diff of several file sections, each with the header lines git emits between `diff --cc` / `diff --combined`
+# and the hunks (`index a,b..c`, `mode a,b..c`, `new file mode`, `deleted file mode a,b`, one `--- ` per parent with
+# --combined-all-paths, `Binary files differ`), two or three parents. The oracle reads the property off the generator's
+# record: every hunk line of every section once, in order, kind by the first `-` / `+` among its n prefix columns, text =
+# the prefix columns (a combined diff always keeps them) followed by the rest with tabs expanded.
+
+SECTION_CLASS = {"cc_modified": "plain-section", "cc_all_paths": "all-paths-section", "cc_mode": "mode-line-section",
+                 "cc_mode_all_paths": "mode-line-section", "cc_added": "new-file-section", "cc_deleted": "deleted-file-section",
+                 "cc_mode_only": "mode-line-section", "cc_binary": "binary-section", "cc_mode_binary": "mode-line-section"}
+
+# `git show --cc` of a real merge (git 2.x): an added file, a deleted file, a file whose mode and content changed
+REAL_MERGE = [
+    "commit baf2155a86c71cf712653ecdc45a7ce868688231", "Merge: 1111111 2222222", "Author: A U Thor <a@example.com>",
+    "Date:   Mon Jan 1 00:00:00 2024 +0000", "", "    merge", "",
+    "diff --cc added.txt", "index 0000000,0000000..2fe4df4", "new file mode 100644", "--- /dev/null", "+++ b/added.txt",
+    "@@@ -1,0 -1,0 +1,2 @@@", "++n1", "++n2",
+    "diff --cc gone.txt", "index b77b4eb,b77b4eb..0000000", "deleted file mode 100644,100644", "--- a/gone.txt", "+++ /dev/null",
+    "@@@ -1,2 -1,2 +1,0 @@@", "--x", "--y",
+    "diff --cc tool.sh", "index 5922773,94235ab..ffad8be", "mode 100644,100644..100755", "--- a/tool.sh", "+++ b/tool.sh",
+    "@@@ -1,5 -1,5 +1,6 @@@", "  a", "- b", " -B1", "++B1x", "  c", "- D2", " -d", "++D2x", "  e", "++new"]
+
+
+def files_of_stream(lines):
+    """The generator's record for a literal combined-diff stream (sections, parents, hunk lines)."""
+    files, f, h = [], None, None
+    for l in lines:
+        if l.startswith(("diff --cc ", "diff --combined ")):
+            f = dict(kind="cc_modified", nparents=2, hunks=[], header=[]); files.append(f); h = None
+        elif f is None:
+            continue
+        elif l.startswith("@@@"):
+            n = len(l) - len(l.lstrip("@")) - 1
+            f["nparents"] = n
+            h = dict(header=l, lines=[]); f["hunks"].append(h)
+        elif h is not None:
+            h["lines"].append((None, l) if l.startswith("\\") else (l[:f["nparents"]], l[f["nparents"]:]))
+        else:
+            if l.startswith("mode "):
+                f["kind"] = "cc_mode"
+            elif l.startswith("new file mode "):
+                f["kind"] = "cc_added"
+            elif l.startswith("deleted file mode "):
+                f["kind"] = "cc_deleted"
+    return files
+
+
+def combined_section_rows(cfg, f):
+    """what C01 demands for one section of a combined diff: [(kind, text)]"""
+    tab = cfg.d["tab"]
+    ex = lambda t: t.replace("\t", " " * tab) if tab else t
+    out = []
+    for h in f["hunks"]:
+        for pre, body in h["lines"]:
+            if pre is None:
+                continue            # `\ No newline at end of file`: not a hunk line
+            first = next((ch for ch in pre if ch in "+-"), None)
+            out.append(({"-": "minus", "+": "plus", None: "zero"}[first], pre + ex(body)))
+    return out
+
+
+def combined_sections_oracle(cfg, lines, files, impl, rep, case):
+    norm = lambda rows: [(k, t.rstrip(" ")) for k, t in rows if t.strip(" ")]
+    got = norm([(k, t) for k, t in impl.rows if k in ("minus", "plus", "zero")])
+    per = [norm(combined_section_rows(cfg, f)) for f in files]
+    exp = [r for rows in per for r in rows]
+    if got == exp:
+        return
+    j = next((j for j, (a, b) in enumerate(zip(got, exp)) if a != b), min(len(got), len(exp)))
+    # the section the first wrong row belongs to
+    sec, acc = len(files) - 1, 0
+    for i, rows in enumerate(per):
+        if j < acc + len(rows):
+            sec = i; break
+        acc += len(rows)
+    f = files[sec] if files else dict(kind="?", nparents=0)
+    cls = SECTION_CLASS.get(f["kind"], f["kind"])
+    rep.violation("hunk-rows-differ:combined:" + cls,
+                  f"combined diff, section {sec} ({f['kind']}, {f['nparents']} parents): hunk rows differ at {j}: "
+                  f"got {got[j] if j < len(got) else None!r}, want {exp[j] if j < len(exp) else None!r}", case)
+
+
+def gen_sections_case(ctx, i):
+    rng = ctx.rng
+    cfg = M.gen_cfg(rng, color_only=False)
+    cells = [(k, n) for k in M.COMBINED_KINDS for n in (2, 3)]
+    if i == 0:
+        return cfg, list(REAL_MERGE), files_of_stream(REAL_MERGE), "combined-sections:real-merge"
+    if i <= len(cells):
+        # every (section kind, number of parents) once per run: alone, or after / before another section
+        kind, n = cells[i - 1]
+        shape = rng.choice(["alone", "after", "before", "between"])
+        kinds = {"alone": [kind], "after": [None, kind], "before": [kind, None], "between": [None, kind, None]}[shape]
+        files = [M.gen_combined_file(rng, kind=k, nparents=(n if k == kind else None)) for k in kinds]
+        lines = [l for f in files for l in f["lines"]]
+        if rng.random() < 0.5:
+            c = M.gen_commit(rng)
+            lines = [c[0], "Merge: 1111111 2222222"] + c[1:] + lines
+        return cfg, lines, files, "combined-sections:family"
+    lines, files = M.gen_combined_sections(rng)
+    return cfg, lines, files, "combined-sections"
+
+
+def run_combined_sections(ctx, rep):
+    n = ctx.n(90, 1800)
+    meta = [gen_sections_case(ctx, i) for i in range(n)]
+    res = M.observe(ctx, [(cfg, [l.encode("utf-8") for l in lines]) for cfg, lines, _, _ in meta])
+    for (cfg, lines, files, src), (impl, model) in zip(meta, res):
+        case = dict(args=cfg.args(), model_cfg=cfg.d, input="\n".join(lines), source=src, files=files)
+        nontrivial = any(pre is not None and pre.strip(" ") for f in files for h in f["hunks"] for pre, _ in h["lines"])
+        rep.case(key=("sections", cfg.key(), tuple(lines)), nontrivial=nontrivial,
+                 sample=dict(source=src, kinds=[f["kind"] for f in files], parents=[f["nparents"] for f in files],
+                             input_head=lines[:6], n_lines=len(lines)))
+        rep.count("source:" + src)
+        for f in files:
+            rep.count("sections:kind:%s:%d-parents" % (f["kind"], f["nparents"]))
+            rep.count("sections:class:" + SECTION_CLASS.get(f["kind"], f["kind"]))
+        if impl.panic:
+            rep.count("impl-panic")
+            rep.violation("panic:combined-sections:" + impl.msg[:50], "implementation panicked/exited: " + impl.msg[:200], case)
+            continue
+        if not impl.ok:
+            rep.count("impl-error"); continue
+        # per line: the state after every header line of a combined section is still a combined header state
+        dis = M.compare(cfg, impl, model)
+        rep.corr_case("machine.run", not dis, dict(case, disagreement=dis[:2]))
+        combined_sections_oracle(cfg, lines, files, impl, rep, case)
+        rep.count("sections:oracle-evaluated")
+
+
 def run(ctx, rep):
-    rep.rule = ("structured diffs (git unified with every file-event kind, plain diff -u, combined with conflict regions; "
+    rep.rule = ("structured diffs (git unified with every file-event kind, plain diff -u, combined with conflict regions, "
+                "combined with 1-3 file sections of every header shape git emits (index / mode a,b..c / new file mode / deleted "
+                "file mode a,b / one --- per parent / Binary files differ; 2 or 3 parents; --cc and --combined); "
                 "bodies from an alphabet with marker look-alikes, tabs, Unicode) x random unified-view configurations; "
                 "non-trivial = has >= 1 hunk with a changed line; distinct by (config, input)")
     n = ctx.n(300, 6000)
@@ -491,6 +624,7 @@ def run(ctx, rep):
         if "mutated" not in src:
             oracle(cfg, lines, files, src, impl, rep, case)
     run_raw(ctx, rep)
+    run_combined_sections(ctx, rep)
 
 
 def replay(ctx, rep, obj):
@@ -508,3 +642,6 @@ def replay(ctx, rep, obj):
     impl, model = res[0]
     print("impl:", impl.resp[:300]); print("model:", model.resp[:300] if model else None)
     print("disagreements:", M.compare(cfg, impl, model) if impl.ok else "n/a")
+    if str(c.get("source", "")).startswith("combined-sections") and impl.ok:
+        combined_sections_oracle(cfg, lines, c.get("files", []), impl, rep, c)
+        print("hunk rows:", [(k, t) for k, t in impl.rows if k in ("minus", "plus", "zero")][:12])
